@@ -44,6 +44,17 @@ def bounded(tier, seed):
     out.append(run_cases("forward-random", rnd, lambda p: O.c01_forward(p, with_all=len(stems_of(p)) <= 7), knotted,
                          "random knotted structures N<=60, <=7 stems", "60 structures" if tier == "quick" else "600 structures",
                          sig=repr, relates="BpSeq"))
+    # many bracket levels: k mutually crossing stems need k levels (k = 11, 12 through the MILP as well; k = 30 through FCFS)
+    def clique(k, ln=1):
+        from gen.pairings import stretch
+        base = tuple(list(range(k + 1, 2 * k + 1)) + list(range(1, k + 1)))
+        return stretch(base, [ln] * k) if ln > 1 else base
+    deep = [(clique(11), True), (clique(12, 2), True), (clique(30), False), (clique(29, 2), False)]
+    if tier != "quick":
+        deep += [(clique(k), True) for k in (13, 16, 20)]
+    out.append(run_cases("many-levels", deep, lambda c: O.c01_forward(c[0], with_all=False, with_milp=c[1]), lambda c: True,
+                         "k mutually crossing stems (k bracket levels): fcfs for k up to 30, dot_bracket (MILP) for k = 11, 12 (thorough: up to 20)",
+                         f"{len(deep)} structures", sig=lambda c: f"clique-{len(stems_of(c[0]))}x{len(c[0]) // (2 * len(stems_of(c[0])))}", relates="BpSeq"))
     # converse: balanced strings over the 30 bracket types (painted with random proper levels)
     conv = []
     for p in rnd + list(pairings_upto(6)):
